@@ -68,18 +68,15 @@ def engRangeFn (c : Ctx V) (fn : String) (s : VSel) (range : Int) : OpSem V :=
 def constOp (f : Int → V) : OpSem V :=
   { series := [[]], step := fun t => .ok [(0, f t)] }
 
-/-- static grouping of a series list: `(group id per input series, group labels)` in order of
-first appearance -/
+/-- static grouping of a series list: `(group id per input series, group labels)`, groups in order
+of first appearance (`initializeScalarTables`: `inputCache`, `outputCache`) -/
 def staticGroups (key : Labels → Labels) (out : Labels → Labels) (series : List Labels) :
     List Nat × List Labels :=
-  let (ids, keys, outs) := series.foldl (fun (acc : List Nat × List Labels × List Labels) ls =>
-    let (ids, keys, outs) := acc
-    let k := key ls
-    match keys.idxOf? k with
-    | some g => (ids ++ [g], keys, outs)
-    | none => (ids ++ [keys.length], keys ++ [k], outs ++ [out ls])) ([], [], [])
-  let _ := keys
-  (ids, outs)
+  let keys := dedup (series.map key)
+  (series.map fun ls => keys.idxOf (key ls),
+   keys.map fun k => match series.find? (fun ls => key ls == k) with
+     | some ls => out ls
+     | none => [])
 
 /-- the engine's accumulators (`scalar_table.go`), folding the members in sample order -/
 def engReduce (op : String) (param : V) (vals : List V) : V :=
@@ -96,17 +93,16 @@ def engAggregate (op : String) (without : Bool) (grouping : List String) (param 
         let xs ← child.step t
         pure (if xs.isEmpty then [] else [(0, engReduce op nan (xs.map (·.2)))]) }
   else
-    let (gids, outs) := staticGroups (groupKey without grouping) (groupLabels without grouping)
-      child.series
-    { series := outs
+    let sg := staticGroups (groupKey without grouping) (groupLabels without grouping) child.series
+    { series := sg.2
       step := fun t => do
         let xs ← child.step t
-        let p ← match param with
+        let p ← (match param with
           | some po => scalarOf po t
-          | none => pure nan
-        pure ((List.range outs.length).filterMap fun g =>
-          let members := xs.filter fun x => gids.getD x.1 0 == g
-          if members.isEmpty then none else some (g, engReduce op p (members.map (·.2)))) }
+          | none => pure nan)
+        pure ((List.range sg.2.length).filterMap fun g =>
+          if (xs.filter fun x => sg.1.getD x.1 0 == g).isEmpty = true then none
+          else some (g, engReduce op p ((xs.filter fun x => sg.1.getD x.1 0 == g).map (·.2)))) }
 
 def engKAggregate (top : Bool) (without : Bool) (grouping : List String) (param : OpSem V)
     (child : OpSem V) : OpSem V :=
